@@ -26,7 +26,8 @@ variable {Text Diags : Type}
     * `main`: for each open URI, either the task of the current version is still in flight and has
       not published yet, or the client's last notification for the URI is that version's, with
       the diagnostics of the current text.
-    * `sorted`: the versions in the client's log of a URI are strictly increasing. -/
+    * `sorted`: the versions in the client's log of a URI are strictly increasing.
+    * `lock_live`: `publishMu` is only ever held by a task that is still running (used for progress). -/
 structure Inv (diag : Text → Diags) (s : St Text Diags) : Prop where
   task_le : ∀ i k, s.tasks i = some k → i ≤ s.seq
   ver_le : ∀ u v, s.ver u = some v → v ≤ s.seq
@@ -43,10 +44,11 @@ structure Inv (diag : Text → Diags) (s : St Text Diags) : Prop where
      (∃ k, s.tasks v = some k ∧ k.uri = u ∧ k.pc ≠ .unlocking) ∨
      ((s.log u).getLast? = some (v, diag t))
   sorted : ∀ u, ((s.log u).map (·.1)).Pairwise (· < ·)
+  lock_live : ∀ i, s.lock = some i → ∃ k, s.tasks i = some k ∧ k.pc.holds = true
 
 theorem inv_spawn {diag : Text → Diags} {s : St Text Diags} (h : Inv diag s) (u : Uri) (t : Text) :
     Inv diag (spawn s u t) := by
-  obtain ⟨h1,h2,h3,h4,h5,h6,h7,h8,h9,h10,h11,h12,h13⟩ := h
+  obtain ⟨h1,h2,h3,h4,h5,h6,h7,h8,h9,h10,h11,h12,h13,h14⟩ := h
   constructor
   case main =>
     intro u' t' v' hd hv
@@ -64,31 +66,31 @@ theorem inv_spawn {diag : Text → Diags} {s : St Text Diags} (h : Inv diag s) (
   all_goals (simp only [spawn, upd]; grind [PC.diag?, PC.holds])
 theorem inv_close {diag : Text → Diags} {s : St Text Diags} (h : Inv diag s) (u : Uri) :
     Inv diag { s with docs := upd s.docs u none, ver := upd s.ver u none } := by
-  obtain ⟨h1,h2,h3,h4,h5,h6,h7,h8,h9,h10,h11,h12,h13⟩ := h
+  obtain ⟨h1,h2,h3,h4,h5,h6,h7,h8,h9,h10,h11,h12,h13,h14⟩ := h
   constructor
   all_goals (simp only [upd]; grind [PC.diag?, PC.holds])
 theorem inv_analyse {diag : Text → Diags} {s : St Text Diags} (h : Inv diag s) (i : Nat) (k : Task Text Diags)
     (hk : s.tasks i = some k) (hpc : k.pc = .start) :
     Inv diag (setPc s i k (.ready (diag k.text))) := by
-  obtain ⟨h1,h2,h3,h4,h5,h6,h7,h8,h9,h10,h11,h12,h13⟩ := h
+  obtain ⟨h1,h2,h3,h4,h5,h6,h7,h8,h9,h10,h11,h12,h13,h14⟩ := h
   constructor
   all_goals (simp only [setPc, upd]; grind [PC.diag?, PC.holds])
 theorem inv_lock {diag : Text → Diags} {s : St Text Diags} (h : Inv diag s) (i : Nat) (k : Task Text Diags) (d : Diags)
     (hl : s.lock = none) (hk : s.tasks i = some k) (hpc : k.pc = .ready d) :
     Inv diag { setPc s i k (.locked d) with lock := some i } := by
-  obtain ⟨h1,h2,h3,h4,h5,h6,h7,h8,h9,h10,h11,h12,h13⟩ := h
+  obtain ⟨h1,h2,h3,h4,h5,h6,h7,h8,h9,h10,h11,h12,h13,h14⟩ := h
   constructor
   all_goals (simp only [setPc, upd]; grind [PC.diag?, PC.holds])
 theorem inv_check {diag : Text → Diags} {s : St Text Diags} (h : Inv diag s) (i : Nat) (k : Task Text Diags) (d : Diags)
     (hk : s.tasks i = some k) (hpc : k.pc = .locked d) :
     Inv diag (setPc s i k (if s.ver k.uri = some i then .checked d else .unlocking)) := by
-  obtain ⟨h1,h2,h3,h4,h5,h6,h7,h8,h9,h10,h11,h12,h13⟩ := h
+  obtain ⟨h1,h2,h3,h4,h5,h6,h7,h8,h9,h10,h11,h12,h13,h14⟩ := h
   constructor
   all_goals (simp only [setPc, upd]; grind [PC.diag?, PC.holds])
 theorem inv_publish {diag : Text → Diags} {s : St Text Diags} (h : Inv diag s) (i : Nat) (k : Task Text Diags) (d : Diags)
     (hk : s.tasks i = some k) (hpc : k.pc = .checked d) :
     Inv diag { setPc s i k .unlocking with log := upd s.log k.uri (s.log k.uri ++ [(i, d)]) } := by
-  obtain ⟨h1,h2,h3,h4,h5,h6,h7,h8,h9,h10,h11,h12,h13⟩ := h
+  obtain ⟨h1,h2,h3,h4,h5,h6,h7,h8,h9,h10,h11,h12,h13,h14⟩ := h
   constructor
   case task_le => simp only [setPc, upd]; grind [PC.diag?, PC.holds]
   case ver_le => simp only [setPc, upd]; grind [PC.diag?, PC.holds]
@@ -132,11 +134,12 @@ theorem inv_publish {diag : Text → Diags} {s : St Text Diags} (h : Inv diag s)
         exact ⟨k', by simp [hvi, hk'], hu', hp'⟩
       · right; exact hlast
   case sorted => simp only [setPc, upd]; grind [PC.diag?, PC.holds]
+  case lock_live => simp only [setPc, upd]; grind [PC.diag?, PC.holds]
 
 theorem inv_unlock {diag : Text → Diags} {s : St Text Diags} (h : Inv diag s) (i : Nat) (k : Task Text Diags)
     (hk : s.tasks i = some k) (hpc : k.pc = .unlocking) :
     Inv diag { s with tasks := upd s.tasks i none, lock := none } := by
-  obtain ⟨h1,h2,h3,h4,h5,h6,h7,h8,h9,h10,h11,h12,h13⟩ := h
+  obtain ⟨h1,h2,h3,h4,h5,h6,h7,h8,h9,h10,h11,h12,h13,h14⟩ := h
   constructor
   all_goals (simp only [upd]; grind [PC.diag?, PC.holds])
 
@@ -206,5 +209,134 @@ theorem inv_foldl {diag : Text → Diags} (es : List (Ev Text)) {s : St Text Dia
 /-- The invariant holds after every finite trace of the repaired server. -/
 theorem inv_run (diag : Text → Diags) (es : List (Ev Text)) : Inv diag (run diag true es) :=
   inv_foldl es (inv_init diag)
+
+/-! ## Progress: the tasks can always run to completion -/
+
+def Ev.isTask : Ev Text → Bool
+  | .openDoc _ _ | .change _ _ | .close _ => false
+  | _ => true
+
+/-- Steps a task still has to take. -/
+def PC.rem : PC Diags → Nat
+  | .start => 5 | .ready _ => 4 | .locked _ => 3 | .checked _ => 2 | .unlocking => 1
+
+def remT : Option (Task Text Diags) → Nat
+  | none => 0
+  | some k => k.pc.rem
+
+def sumTo (f : Nat → Nat) : Nat → Nat
+  | 0 => f 0
+  | n + 1 => sumTo f n + f (n + 1)
+
+theorem sumTo_upd (f : Nat → Nat) (i v n : Nat) (h : i ≤ n) :
+    sumTo (upd f i v) n + f i = sumTo f n + v := by
+  induction n with
+  | zero => have : i = 0 := by omega
+            subst this; simp [sumTo, upd]; omega
+  | succ n ih =>
+    simp only [sumTo]
+    by_cases hi : i = n + 1
+    · subst hi
+      have : sumTo (upd f (n+1) v) n = sumTo f n := by
+        clear ih h
+        have : ∀ m, m ≤ n → sumTo (upd f (n+1) v) m = sumTo f m := by
+          intro m hm
+          induction m with
+          | zero => simp [sumTo, upd]
+          | succ m ihm => simp only [sumTo]; rw [ihm (by omega)]; simp [upd]; omega
+        exact this n (Nat.le_refl n)
+      rw [this]; simp [upd]; omega
+    · have := ih (by omega)
+      have h2 : upd f i v (n+1) = f (n+1) := by simp [upd]; omega
+      rw [h2]; omega
+
+/-- Total number of task steps outstanding. -/
+def work (s : St Text Diags) : Nat := sumTo (fun i => remT (s.tasks i)) s.seq
+
+theorem work_upd (s : St Text Diags) (i : Nat) (x : Option (Task Text Diags)) (h : i ≤ s.seq) :
+    sumTo (fun j => remT (upd s.tasks i x j)) s.seq + remT (s.tasks i) = work s + remT x := by
+  have : (fun j => remT (upd s.tasks i x j)) = upd (fun j => remT (s.tasks j)) i (remT x) := by
+    funext j; simp only [upd]; split <;> rfl
+  rw [this]; exact sumTo_upd _ i _ _ h
+
+theorem work_lt (s s' : St Text Diags) (i : Nat) (x : Option (Task Text Diags)) (k : Task Text Diags)
+    (hk : s.tasks i = some k) (hi : i ≤ s.seq) (hx : remT x < k.pc.rem)
+    (ht : s'.tasks = upd s.tasks i x) (hseq : s'.seq = s.seq) : work s' < work s := by
+  have h := work_upd s i x hi
+  rw [hk] at h
+  have h2 : remT (some k) = k.pc.rem := rfl
+  rw [h2] at h
+  have : work s' = sumTo (fun j => remT (upd s.tasks i x j)) s.seq := by
+    simp only [work, ht, hseq]
+  omega
+
+/-- In every reachable state that is not quiescent some task step is enabled, and it reduces the
+    outstanding work: no deadlock on `publishMu`, no livelock. -/
+theorem progress {diag : Text → Diags} {s : St Text Diags} (h : Inv diag s) (hq : ¬ Quiescent s) :
+    ∃ e s', Ev.isTask e = true ∧ step? diag true s e = some s' ∧ work s' < work s ∧ s'.docs = s.docs := by
+  have ⟨i, hi⟩ := Classical.not_forall.mp hq
+  have ⟨hi, hne⟩ := Classical.not_imp.mp hi
+  cases hk : s.tasks i with
+  | none => exact absurd hk hne
+  | some k =>
+  cases hl : s.lock with
+  | none =>
+    have nh : k.pc.holds = false := by
+      cases hh : k.pc.holds with
+      | false => rfl
+      | true => have := h.owner i k hk hh; rw [hl] at this; cases this
+    cases hpc : k.pc with
+    | start =>
+      refine ⟨.analyse i, setPc s i k (.ready (diag k.text)), rfl, by simp [step?, hk, hpc], ?_, rfl⟩
+      exact work_lt s _ i _ k hk hi (by simp [remT, hpc, PC.rem]) rfl rfl
+    | ready d =>
+      refine ⟨.lock i, { setPc s i k (.locked d) with lock := some i }, rfl, by simp [step?, hk, hpc, hl], ?_, rfl⟩
+      exact work_lt s _ i _ k hk hi (by simp [remT, hpc, PC.rem]) rfl rfl
+    | locked d => simp [hpc, PC.holds] at nh
+    | checked d => simp [hpc, PC.holds] at nh
+    | unlocking => simp [hpc, PC.holds] at nh
+  | some j =>
+    obtain ⟨kj, hkj, hh⟩ := h.lock_live j hl
+    have hj := h.task_le j kj hkj
+    cases hpc : kj.pc with
+    | start => simp [hpc, PC.holds] at hh
+    | ready d => simp [hpc, PC.holds] at hh
+    | locked d =>
+      refine ⟨.check j, setPc s j kj (if s.ver kj.uri = some j then .checked d else .unlocking), rfl,
+        by simp [step?, hkj, hpc], ?_, rfl⟩
+      refine work_lt s _ j _ kj hkj hj ?_ rfl rfl
+      by_cases hv : s.ver kj.uri = some j <;> simp [remT, hpc, hv, PC.rem]
+    | checked d =>
+      refine ⟨.publish j, { setPc s j kj .unlocking with log := upd s.log kj.uri (s.log kj.uri ++ [(j, d)]) }, rfl,
+        by simp [step?, hkj, hpc], ?_, rfl⟩
+      exact work_lt s _ j _ kj hkj hj (by simp [remT, hpc, PC.rem]) rfl rfl
+    | unlocking =>
+      refine ⟨.unlock j, { s with tasks := upd s.tasks j none, lock := none }, rfl,
+        by simp [step?, hkj, hpc], ?_, rfl⟩
+      exact work_lt s _ j _ kj hkj hj (by simp [remT, hpc, PC.rem]) rfl rfl
+
+/-- From every state satisfying the invariant, some finite sequence of task steps (no
+    notification) leads to a quiescent state, leaving the documents as they are. -/
+theorem drain {diag : Text → Diags} (n : Nat) (s : St Text Diags) (h : Inv diag s) (hw : work s ≤ n) :
+    ∃ es : List (Ev Text), (∀ e ∈ es, Ev.isTask e = true) ∧
+      Quiescent (es.foldl (step diag true) s) ∧ (es.foldl (step diag true) s).docs = s.docs := by
+  induction n generalizing s with
+  | zero =>
+    by_cases hq : Quiescent s
+    · exact ⟨[], by simp, hq, rfl⟩
+    · obtain ⟨e, s', _, _, hlt, _⟩ := progress h hq; omega
+  | succ n ih =>
+    by_cases hq : Quiescent s
+    · exact ⟨[], by simp, hq, rfl⟩
+    · obtain ⟨e, s', het, hs, hlt, hd⟩ := progress h hq
+      obtain ⟨es, hall, hqq, hdd⟩ := ih s' (inv_step h e hs) (by omega)
+      have hstep : step diag true s e = s' := by simp [step, hs]
+      refine ⟨e :: es, ?_, ?_, ?_⟩
+      · intro x hx
+        rcases List.mem_cons.mp hx with rfl | hx
+        · exact het
+        · exact hall x hx
+      · simpa [List.foldl_cons, hstep] using hqq
+      · simp only [List.foldl_cons, hstep]; rw [hdd, hd]
 
 end HL.Srv
